@@ -57,7 +57,11 @@ func (rw *readWriter) Write(p []byte) (n int, err error) {
 }
 
 func (rw *readWriter) Close() error {
+	// Set the flag under the mutex: a reader that has tested it and is about
+	// to wait must not miss the broadcast.
+	rw.m.Lock()
 	rw.closed.Store(true)
+	rw.m.Unlock()
 	vhook.At("rw.close.stored")
 	rw.cv.Broadcast()
 	vhook.At("rw.close.broadcast")
